@@ -191,6 +191,13 @@ class Interp:
         if len(e.ops) == 1 and isinstance(op, (ast.Gt, ast.Lt, ast.GtE, ast.LtE)) and isinstance(l, (int, Mono)) and isinstance(r, (int, Mono)):
             if isinstance(l, int) and isinstance(r, int):
                 return {ast.Gt: l > r, ast.Lt: l < r, ast.GtE: l >= r, ast.LtE: l <= r}[type(op)]
+            # symbolic sizes are positive integers: compared with zero (or a negative literal) the answer is known
+            for sym_, lit_, flip in ((l, r, False), (r, l, True)):
+                if isinstance(sym_, Mono) and isinstance(lit_, int) and lit_ <= 0:
+                    gt = True  # sym > lit
+                    table = {ast.Gt: gt, ast.GtE: gt, ast.Lt: not gt, ast.LtE: not gt}
+                    res = table[type(op)]
+                    return (not res) if flip else res
             a, b = Mono.of(l), Mono.of(r)
             # symbolic sizes are positive integers: a | b  =>  a <= b
             if b.divisible(a):
@@ -201,6 +208,8 @@ class Interp:
         if len(e.ops) == 1 and isinstance(e.ops[0], (ast.Eq, ast.NotEq)):
             if isinstance(l, (tuple, list)) and isinstance(r, (tuple, list)):
                 eq = tuple(map(Mono.of, l)) == tuple(map(Mono.of, r))
+            elif (isinstance(l, Mono) and isinstance(r, int) and r <= 0) or (isinstance(r, Mono) and isinstance(l, int) and l <= 0):
+                eq = False  # a symbolic size is a positive integer
             elif isinstance(l, (int, Mono)) and isinstance(r, (int, Mono)):
                 eq = Mono.of(l) == Mono.of(r)
             else:
